@@ -78,6 +78,8 @@ def make_handlers(ctx):
         if gh is not None:
             same = z3.And([c_time.GM(p)(T) == c_time.GM(p)(gh.T) for p in c_time.PARTS])
             st.assume(z3.Implies(same, T == gh.T))
+            # same file time => same window: instance of lemma L-fstart-unique (ceil is a function), discharged separately
+            st.assume(z3.Implies(z3.And(fs == gh.fs, fm == gh.fm), z3.And(r.left + k == gh.X2, r.left + k - r.max == gh.X1)))
         return [(st, 0)]
 
     def h_create_index(interp, st, args, n):
@@ -491,6 +493,13 @@ def analyse_step(interp, ctx, struct):
         for nmk, c in zip(names, inv):
             if nmk in ("file_time_multiple", "window_start", "window_end", "dir_range", "X2_range", "nrows_range", "seq_hi"):
                 continue   # facts of the layout contract / type ranges, not of this function
+            if nmk == "len_and_cursor_shape":
+                # case split on the storage mode (two small queries instead of one with a top-level ITE)
+                for tag, cond in (("chunked", chunk != 0), ("unchunked", chunk == 0)):
+                    sc_ = s.copy()
+                    sc_.assume(cond)
+                    interp.oblige(sc_, L("recinv.%s.%s" % (nmk, tag)), c, line, kind="post", meta=meta)
+                continue
             interp.oblige(s, L("recinv." + nmk), c, line, kind="post", meta=meta)
     if n_succ == 0:
         raise EngineError("no successful path through %s in scenario %s" % (STEP_FN, sc))
